@@ -51,3 +51,5 @@ def run(ctx):
         src = tu.src(fn.body)
         ctx.ob(rule, f, code in src and flag in src, tu.loc(fn.node), "%s guarded by %s" % (f, code))
     lib_mem.c_lints(ctx, ctx.program(), scopes.lib_scope("C19"))
+    from . import lib_kind5
+    lib_kind5.threshold_agree(ctx, ctx.program())
